@@ -816,6 +816,47 @@ pub fn run() {
         }
       }
     }
+    // the text form of any duration - also of one that several maximal components or a sum of the longest literals make
+    // longer than any single component can say - is a literal that reads back as an equal value
+    let big = "18446744073709551615";
+    let mut texts: Vec<String> = vec![
+      format!("@\"P{}DT{}H\"", big, big),
+      format!("@\"P{}DT{}H{}M{}S\"", big, big, big, big),
+      format!("@\"-P{}DT{}H\"", big, big),
+      format!("@\"P{}D\" + @\"P{}D\"", big, big),
+      format!("@\"P{}D\" + @\"P1D\"", big),
+      format!("@\"-P{}D\" - @\"PT0.000000001S\"", big),
+      format!("@\"PT{}H\" + @\"PT{}H\" + @\"PT{}H\"", big, big, big),
+      format!("(for i in 1..40 return if i = 1 then @\"P{}D\" else partial[-1] + partial[-1])[-1]", big),
+      format!("-(for i in 1..40 return if i = 1 then @\"P{}D\" else partial[-1] + partial[-1])[-1]", big),
+      "@\"P9223372036854775807M\"".to_string(),
+      "@\"P768614336404564650Y7M\"".to_string(),
+      "@\"-P9223372036854775807M\"".to_string(),
+    ];
+    texts.dedup();
+    let names: std::collections::BTreeSet<String> = ["i", "partial"].iter().map(|s| s.to_string()).collect();
+    let ps = crate::rval::parse_scope_of(&names);
+    for text in &texts {
+      cnt.literals.fetch_add(1, Ordering::Relaxed);
+      cnt.observations.fetch_add(1, Ordering::Relaxed);
+      let v = match dmntk_feel_parser::parse_expression(&ps, text, false).ok().and_then(|n| dmntk_feel_evaluator::evaluate(&scope, &n).ok()) {
+        Some(v) => v,
+        None => continue,
+      };
+      if matches!(v, Value::Null(_)) {
+        continue;
+      }
+      let printed = v.to_string();
+      let back = eval_with(&scope, &format!("duration(\"{}\")", printed));
+      let same = matches!(eval_with(&scope, &format!("duration(\"{}\") = {}", printed, text)), Value::Boolean(true));
+      if back.to_string() != printed || !same {
+        run.violation(
+          "read-back:duration-longer-than-a-component-can-say",
+          &format!("`{}` evaluates to {}, but that text reads back as {}", text, printed, back),
+          json!({"engine":"c14","text":format!("duration(string({})) = {}", text, text),"expected":"true"}),
+        );
+      }
+    }
     run.set("oversized_duration_components", json!(n_big));
   }
   run.sample(json!({"kind":"time","literal":"08:15:00-00:30","canonical":"08:15:00-00:30","checks":["accepted through function, @-literal, TryFrom, xsd input","prints canonically","components","string(v) reads back equal"]}));
